@@ -115,5 +115,6 @@ CFG = {
                 'depend only on the locations read. From the source on every run: no listed function nor anything it calls writes through '
                 'a parameter, global, captured variable or unknown pointer (shared_writes = [], unclassified = []), the call graph is closed, '
                 'and every package-level table is written only from init - checked by computation against the regenerated coq/gen/Effects.v.',
- 'shrink_s': 20,
+ # no shrinking: the refs are part of the arguments and a concurrency failure does not replay deterministically
+ 'shrink_s': 0,
 }
